@@ -4,17 +4,26 @@
 (* and flows beyond the exhaustive bounds (real-valued edges and           *)
 (* coordinates are replaced by their ranks per dimension):                 *)
 (*   [edges, form (how they were written), kind, flow, hists (nested bins of every histogram yielded), *)
-(*    iter (edges of the cells IterateBins yields, sorted), hctx, vctx]    *)
+(*    iter (edges of the cells IterateBins yields, sorted), hctx, vctx,    *)
+(*    errs (what fill() raised to its caller: [pos, exc]),                 *)
+(*    has2, iter2 (one IterateBins element over this histogram and then    *)
+(*    one of a second SplitIntoBins splitting by another variable "y" over *)
+(*    the same edges: [var named in context.bin, edges] of every cell)]    *)
 (***************************************************************************)
 EXTENDS SplitIntoBinsSem, IOUtils
 Trace == JsonDeserialize(IOEnv.TRACE_FILE)
 VARIABLE i
+Iter2Sem(edges) == LET n == Len(CellSeq(edges)) IN
+                   [j \in 1..(2 * n) |-> LET b == BinSem(CellSeq(edges)[((j - 1) % n) + 1], edges, IF j <= n THEN "x" ELSE "y") IN
+                                         [var |-> b.var, e |-> b.e]]
 Ok(r) == LET hs == SIBSem(r.kind, r.edges, r.flow) IN
          /\ r.form \in Forms(Len(r.edges)) /\ AxesWritten(EdgesWritten(r.edges, r.form)) = r.edges
          /\ r.hists = [k \in 1..Len(hs) |-> Nest(hs[k], r.edges)]
-         /\ (Len(hs) > 0) => r.hctx = HistCtxSem(r.edges, r.flow)      \* context of the histograms (without variable)
+         /\ r.errs = ErrsSem(r.edges, r.flow, Len(r.flow))             \* exceptions of the cells' analyses, of inside values only
+         /\ (Len(hs) > 0) => r.hctx \in HistCtxSet(r.edges, r.flow)   \* context of the histograms (without variable)
          /\ r.vctx = FlowCtxSem(r.kind, r.edges, r.flow)               \* contexts of the flow values afterwards
          /\ (Len(hs) > 0) => r.iter = [n \in 1..Len(CellSeq(r.edges)) |-> CellEdges(CellSeq(r.edges)[n], r.edges)]
+         /\ r.iter2 = (IF r.has2 THEN Iter2Sem(r.edges) ELSE <<>>)
 Init == i = 1
 Next == i <= Len(Trace) /\ Ok(Trace[i]) /\ i' = i + 1
 Spec == Init /\ [][Next]_i
